@@ -641,13 +641,35 @@ func TestC16_em_monotone_mixture(t *testing.T) {
 			}
 			models = append(models, snapshotMixture(m.(*scalarDistribution.Mixture)))
 		}}
-		est, err := scalarEstimator.NewMixtureEstimator(weights, ests, eps, maxSteps, hook)
+		// count data: also the estimator that summarises repeated observations (SetData + Estimate)
+		discrete := kind[0] != "normal" && kind[0] != "exponential" && kind[len(kind)-1] != "normal" && rapid.Bool().Draw(t, "summarizedData")
+		var est interface {
+			statistics.ScalarEstimator
+		}
+		var err error
+		if discrete {
+			c.Class("summarised data (DiscreteMixtureEstimator)")
+			if distinct(x) < len(x) {
+				c.Class("repeated observations")
+			}
+			est, err = scalarEstimator.NewDiscreteMixtureEstimator(weights, ests, eps, maxSteps, hook)
+		} else {
+			est, err = scalarEstimator.NewMixtureEstimator(weights, ests, eps, maxSteps, hook)
+		}
 		if err != nil {
 			t.Fatalf("%s: constructor %v", c.Desc(), err)
 		}
 		pool, stop := drawPool(t, c)
 		defer stop()
-		p, to := guarded(func() { err = est.EstimateOnData(NewDenseFloat64Vector(x), nil, pool) })
+		p, to := guarded(func() {
+			if discrete {
+				if err = est.SetData(NewDenseFloat64Vector(x), len(x)); err == nil {
+					err = est.Estimate(nil, pool)
+				}
+			} else {
+				err = est.EstimateOnData(NewDenseFloat64Vector(x), nil, pool)
+			}
+		})
 		if to {
 			c.Class("inconclusive: watchdog")
 			c.End()
